@@ -277,7 +277,7 @@ Definition call_body (F : list fundef) (fn : string) (args : list name) : option
       if (na =? np)%nat then Some (sub_all (fn_params fd) args body)
       else if (na =? S np)%nat then
         match args with
-        | a0 :: rest => Some (sub_all (fn_params fd) rest (subst ep a0 body))
+        | a0 :: rest => Some (sub_all (fn_params fd) rest (subst ep (if is_self a0 then new_self "" else a0) body))
         | [] => None
         end
       else None
